@@ -1196,3 +1196,34 @@ benign('benign-c01-u32-from-le-bytes', 'C01', DEC, """    Some(
     }
     Some(u32::from_le_bytes(bytes))""")
 canary('c07-prefix-truncating-cast', 'C07', CONN, "stream.write_u32(frame_len(total_len)?).await?;", "stream.write_u32(total_len as u32).await?;", 'prefix-not-truncated')
+_FAST = """        if discriminant(self) == discriminant(other) {
+            match (self, other) {
+                (OwnedTerm::Integer(a), OwnedTerm::Integer(b)) => return a.cmp(b),
+                (OwnedTerm::Atom(a), OwnedTerm::Atom(b)) => return a.name.cmp(&b.name),
+                (OwnedTerm::Binary(a), OwnedTerm::Binary(b)) => return a.cmp(b),
+                (OwnedTerm::String(a), OwnedTerm::String(b)) => return a.cmp(b),
+                (OwnedTerm::Nil, OwnedTerm::Nil) => return Ordering::Equal,
+                _ => {}
+            }
+        }
+
+"""
+benign('benign-c11-no-fast-path', 'C11', 'crates/erltf/src/term.rs', _FAST, "")
+benign('benign-c12-no-fast-path', 'C12', 'crates/erltf/src/term.rs', _FAST, "")
+benign('benign-c13-no-fast-path', 'C13', 'crates/erltf/src/term.rs', _FAST, "")
+benign('benign-c08-take-helper', 'C08', CTL, """            Some(ControlMessageType::Link) if elements.len() == 3 => Ok(ControlMessage::Link {
+                from_pid: mem::take(&mut elements[1]),
+                to_pid: mem::take(&mut elements[2]),
+            }),""", """            Some(ControlMessageType::Link) if elements.len() == 3 => Ok(ControlMessage::Link {
+                from_pid: take_field(&mut elements, 1),
+                to_pid: take_field(&mut elements, 2),
+            }),""", more=[(CTL, "impl ControlMessage {", "fn take_field(elements: &mut [OwnedTerm], i: usize) -> OwnedTerm {\n    mem::take(&mut elements[i])\n}\n\nimpl ControlMessage {")])
+benign('benign-c08-link-clone', 'C08', CTL, """                from_pid: mem::take(&mut elements[1]),
+                to_pid: mem::take(&mut elements[2]),
+            }),
+
+            Some(ControlMessageType::Send)""", """                from_pid: elements[1].clone(),
+                to_pid: elements[2].clone(),
+            }),
+
+            Some(ControlMessageType::Send)""")
